@@ -52,20 +52,55 @@ impl Case for CosetCase {
 /// with a HISTORY: the first half of the word is built, used the way relators are used (expanded,
 /// inverted, cloned) and then extended in place with `*=` to the full word.
 pub fn fw(w: &[i64]) -> FreeWord {
-    if w.len() >= 2 && h64(&w) % 4 == 0 {
-        let k = w.len() / 2;
-        let mut a = FreeWord::new(w[..k].iter().map(|&x| x as isize));
-        let _ = guarded(|| {
-            let _ = rust_dsymbols::fpgroups::free_words::relator_permutations(&a);
-            let _ = rust_dsymbols::fpgroups::free_words::relator_representative(&a);
-            let _ = a.inverse();
-            let _ = a.len();
-            let _ = a.clone();
-        });
-        a *= &FreeWord::new(w[k..].iter().map(|&x| x as isize));
-        a
-    } else {
-        FreeWord::new(w.iter().map(|&x| x as isize))
+    let route = if w.len() >= 2 { h64(&w) % 10 } else { 9 };
+    let k = w.len() / 2;
+    let lit = |v: &[i64]| FreeWord::new(v.iter().map(|&x| x as isize));
+    match route {
+        0 | 1 => {
+            let mut a = lit(&w[..k]);
+            let _ = guarded(|| {
+                let _ = rust_dsymbols::fpgroups::free_words::relator_permutations(&a);
+                let _ = rust_dsymbols::fpgroups::free_words::relator_representative(&a);
+                let _ = a.inverse();
+                let _ = a.len();
+                let _ = a.clone();
+            });
+            a *= &lit(&w[k..]);
+            a
+        }
+        // letter by letter with `word * letter`, with detours that cancel again (g, then -g)
+        2 => {
+            let mut a = FreeWord::empty();
+            for (i, &l) in w.iter().enumerate() {
+                a = a * (l as isize);
+                if i % 2 == 1 {
+                    let g = w[(i * 7 + 3) % w.len()] as isize;
+                    a = &a * g;
+                    a = a * (-g);
+                }
+            }
+            a
+        }
+        // a product in which a whole factor is absorbed: (u x) (x^-1 v)
+        3 => {
+            let x: Vec<i64> = w.iter().rev().take(2).cloned().collect();
+            let mut left = w[..k].to_vec();
+            left.extend(x.iter());
+            let mut right: Vec<i64> = x.iter().rev().map(|&l| -l).collect();
+            right.extend(w[k..].iter());
+            if h64(&(w, 1)) % 2 == 0 { &lit(&left) * &lit(&right) } else { lit(&left) * lit(&right) }
+        }
+        // the inverse of the inverse, built the long way round; a conjugate that is conjugated back
+        4 => {
+            let inv: Vec<i64> = w.iter().rev().map(|&l| -l).collect();
+            lit(&inv).inverse()
+        }
+        5 => {
+            let g = w[0] as isize;
+            let c = FreeWord::new([g]) * lit(w) * (-g);
+            FreeWord::new([-g]) * c * g
+        }
+        _ => lit(w),
     }
 }
 
@@ -111,7 +146,9 @@ fn presented_relators(c: &CosetCase) -> Vec<Word> {
     match c.variant {
         0 => c.rels.clone(),
         1 => c.rels.iter().enumerate().map(|(k, w)| { let mut v = w.clone(); if !v.is_empty() { v.rotate_left(1 % w.len()); } if k % 2 == 0 { inv_word(&v) } else { v } }).collect(),
-        _ => c.rels.iter().rev().chain(c.rels.iter()).cloned().collect(),
+        2 => c.rels.iter().rev().chain(c.rels.iter()).cloned().collect(),
+        // 3: the list as given (repeated entries stay)
+        _ => c.rels.clone(),
     }
 }
 
@@ -337,6 +374,34 @@ pub fn run(ctx: &mut Ctx) {
     cases.extend(lattice_cases());
     let n = cases.len();
     ctx.run_par(&SUB_COSET, cases, Some(&format!("{} (group, subgroup) pairs: every corpus group of order <= {} x {{trivial, whole group, all sets of <= 2 reduced words of length <= 2 (1/7 of the pairs for orders > 400)}}, and all 2x2 sublattices of Z^2 with entries in -3..3", n, max_order)));
+
+    // degenerate shapes: no generators at all, groups that are trivial through one-letter relators, free
+    // generators next to finite factors, repeated list entries
+    ctx.layer("degenerate");
+    {
+        let mk = |name: &str, nr_gens: usize, rels: Vec<Word>, order: u64, index: u64, sub: Vec<Word>, variant: u8| CosetCase { name: name.to_string(), nr_gens, rels, order, index, sub, variant };
+        let mut deg = vec![];
+        for v in [0u8, 3] {
+            deg.push(mk("trivial group on no generators", 0, vec![], 1, 0, vec![], v));
+            deg.push(mk("trivial group <a | a>", 1, vec![vec![1]], 1, 0, vec![], v));
+            deg.push(mk("trivial group <a | a^-1>", 1, vec![vec![-1]], 1, 0, vec![vec![1]], v));
+            deg.push(mk("trivial group <a, b | a, b>", 2, vec![vec![1], vec![2]], 1, 0, vec![], v));
+            deg.push(mk("trivial group <a, b, c | c, a, b>", 3, vec![vec![3], vec![1], vec![2]], 1, 0, vec![vec![2, 3]], v));
+            deg.push(mk("Z2 = <a, b | a, b^2>", 2, vec![vec![1], vec![2, 2]], 2, 0, vec![], v));
+            deg.push(mk("Z2 = <a, b | b, a^2>", 2, vec![vec![2], vec![1, 1]], 2, 0, vec![vec![2]], v));
+            deg.push(mk("Z3 = <a, b, c | a, c, b^3>", 3, vec![vec![1], vec![3], vec![2, 2, 2]], 3, 0, vec![vec![1, 3]], v));
+            deg.push(mk("Z = <a> with H = <a^n>", 1, vec![], 0, 3, vec![vec![1, 1, 1]], v));
+            deg.push(mk("Z = <a> with H = <a^-1>", 1, vec![], 0, 1, vec![vec![-1]], v));
+            deg.push(mk("F2 with H = F2", 2, vec![], 0, 1, vec![vec![2], vec![1]], v));
+            deg.push(mk("Z * Z2 with H = <a, b>", 2, vec![vec![2, 2]], 0, 1, vec![vec![1], vec![2]], v));
+            deg.push(mk("Z x Z2, H = <a^2>", 2, vec![vec![2, 2], vec![1, 2, -1, -2]], 0, 4, vec![vec![1, 1]], v));
+        }
+        // repeated entries, handed over as they are. Empty words are NOT generated: every caller inside the
+        // crate filters them out (fundamental_group: `if rel.len() > 0`), and coset_table indexes w[0]
+        deg.push(mk("S3 with a repeated subgroup generator", 2, vec![vec![1, 1], vec![2, 2], vec![1, 2, 1, 2, 1, 2]], 6, 0, vec![vec![2], vec![2], vec![2]], 3));
+        deg.push(mk("S3 with a repeated relator", 2, vec![vec![1, 1], vec![1, 1], vec![2, 2], vec![1, 2, 1, 2, 1, 2], vec![2, 2]], 6, 0, vec![vec![1, 2]], 3));
+        ctx.run_par(&SUB_COSET, deg, None);
+    }
 
     ctx.layer("random");
     let pool = Arc::new(groups.into_iter().filter(|g| g.order.unwrap() <= max_order).collect::<Vec<_>>());
